@@ -1029,6 +1029,14 @@ impl FromStr for Epoch {
                 }
             };
 
+            if !value.is_finite() {
+                // The initializers below only accept finite values.
+                return Err(HifitimeError::Parse {
+                    source: ParsingError::ValueError,
+                    details: "parsing as JD, MJD, or SEC",
+                });
+            }
+
             match format {
                 "JD" => match ts {
                     TimeScale::ET => Ok(Self::from_jde_et(value)),
